@@ -51,6 +51,7 @@ class Check:
         self.pid, self.tier, self.seed = pid, tier, seed
         self.t0 = time.time()
         self.rows = []  # aggregated obligations
+        self.done = set()  # (part, class) pairs already examined in this run: shared parts are idempotent
         self.functions = []
         self.assumptions = set()
         self.trusted = list(TRUSTED_BASE)
